@@ -7,9 +7,11 @@
    The model is a pure function of (mode, value): EVERY view must equal
    gen_lines m v (the whole text is the "\n"-join of these lines: checked on the
    implementation side by the harness, proved for the model in
-   Lemmas.lines_lossless).  The harness sends each distinct view once (views
-   equal to the first one are dropped on the Python side, so "all views equal
-   the model's lines" is unchanged).
+   Lemmas.lines_lossless).  The harness sends the first view and at most two of
+   the views that differ from it (views equal to the first one are dropped on the
+   Python side: if any view differs from the first, the first or that one differs
+   from the model's lines, so "all views equal the model's lines" is decided
+   unchanged).
    wviews = views of the rendering of  [v, {"k": v}]  built from the SAME object v
    (a value in which one object occurs twice, at two nesting offsets; its lines
    were produced interleaved with those of v); the model has no notion of object
